@@ -89,7 +89,7 @@ theorem startsWithUncased_same (c c' : Cfg) (hk : c.skip .special ≠ .unreachab
         intro hit b' h; rw [← h.2]
       · exact ih { b with index := b.index + 1 } hn hn'
 
-theorem isSpecialEq_same (c c' : Cfg) (hS : SepClass c) (hP : PlainClass c') (hC : Counterpart c c') (b : Bytes)
+theorem isSpecialEq_same (c c' : Cfg) (hS : RelClass c) (hP : PlainClass c') (hC : Counterpart c c') (b : Bytes)
     (hn : NoSep c b.slc) (l : List Nat) : isSpecialEq c' b l = isSpecialEq c b l := by
   unfold isSpecialEq
   rw [hC.feats, hC.caseSensitiveSpecial]
@@ -117,17 +117,17 @@ theorem isSpecialEq_same (c c' : Cfg) (hS : SepClass c) (hP : PlainClass c') (hC
   · simp only [hcs, Bool.false_eq_true, if_false]
     exact fin _ h2.2
 
-theorem parsePositiveSpecial_same (c c' : Cfg) (hS : SepClass c) (hP : PlainClass c') (hC : Counterpart c c')
+theorem parsePositiveSpecial_same (c c' : Cfg) (hS : RelClass c) (hP : PlainClass c') (hC : Counterpart c c')
     (o : POpts) (b : Bytes) (hn : NoSep c b.slc) : parsePositiveSpecial c' o b = parsePositiveSpecial c o b := by
   unfold parsePositiveSpecial
   simp only [hC.feats, hC.noSpecial, isSpecialEq_same c c' hS hP hC b hn]
 
-theorem parseSpecialComplete_same (c c' : Cfg) (hS : SepClass c) (hP : PlainClass c') (hC : Counterpart c c')
+theorem parseSpecialComplete_same (c c' : Cfg) (hS : RelClass c) (hP : PlainClass c') (hC : Counterpart c c')
     (o : POpts) (b : Bytes) (hn : NoSep c b.slc) : parseSpecialComplete c' o b = parseSpecialComplete c o b := by
   unfold parseSpecialComplete
   rw [parsePositiveSpecial_same c c' hS hP hC o b hn]
 
-theorem isConsumed_same (c c' : Cfg) (hS : SepClass c) (hP : PlainClass c') (hC : Counterpart c c') (k : Comp)
+theorem isConsumed_same (c c' : Cfg) (hS : RelClass c) (hP : PlainClass c') (hC : Counterpart c c') (k : Comp)
     (b : Bytes) (hn : NoSep c b.slc) : isConsumed c' k b = isConsumed c k b := by
   unfold isConsumed
   rw [hC.feats, peek_nosep c k b hn (hS.reach _), peek_nosep c' k b (hP.noSep _) (hP.reach _)]
@@ -141,7 +141,7 @@ theorem isConsumed_slc (c : Cfg) (k : Comp) (b b' : Bytes) (r : Bool) (hn : NoSe
   · simp only [bind, Except.bind, pure, Except.pure, Except.ok.injEq, Prod.mk.injEq] at h; exact h.2.symm
 
 /-- `parse_complete` / `parse_partial` up to the `Number` -/
-theorem parseFloatSyntax_same (c c' : Cfg) (hS : SepClass c) (hP : PlainClass c') (hC : Counterpart c c')
+theorem parseFloatSyntax_same (c c' : Cfg) (hS : RelClass c) (hP : PlainClass c') (hC : Counterpart c c')
     (o : POpts) (isPartial : Bool) (input : List Nat) (fv : Bool) (hn : NoSep c input) :
     parseFloatSyntax c' o isPartial input fv = parseFloatSyntax c o isPartial input fv := by
   unfold parseFloatSyntax parseMantissaSign
